@@ -379,6 +379,32 @@ def run_case(case: dict, ctx: dict) -> dict:
                 if gotm != wantm:
                     violation("generated-file-used-wrong-template", {"type": str(t), "got": gotm, "want": wantm, "templates": sorted(names_for_types), "d1": plan.get("d1"), "d2": plan.get("d2"), "lang": lang})
             bump("probes", "markers_checked")
+    # ---- a second generator with ANOTHER template set in the same interpreter: nothing may leak between loaders
+    if user_names is not None:
+        alt_names = builtin_names
+        alt_kw = {}  # type: typing.Dict[str, typing.Any]
+    else:
+        alt_dir = os.path.join(world.tpl_dir, "alt")
+        plant_dir(alt_dir, "alt", ["Any", "UnionType"], [])
+        alt_names = {"Any", "UnionType", "Namespace"}
+        alt_kw = {"templates_dir": pathlib.Path(alt_dir)}
+    gen_alt = DSDLCodeGenerator(ns, **alt_kw)
+    evaluations += 1
+    for i in order[:12]:
+        v = pool[i]
+        want = model_resolve(type(v), alt_names)
+        try:
+            got = gen_alt.filter_type_to_template(v)
+            got = os.path.splitext(got)[0] if got is not None else None
+        except RuntimeError:
+            got = None
+        evaluations += 1
+        if got != want:
+            violation(
+                "resolution-leaks-between-generators",
+                {"class": type(v).__name__, "got": got, "want": want, "first_generator_templates": sorted(names_for_types), "second_generator_templates": sorted(alt_names), "lang": lang},
+            )
+    bump("probes", "second_generator_other_template_set")
     if walked or (adds and any(k.split("|")[-1] != "added" for k in keys)):
         keys.append(hashlib.sha256(repr((lang, plan.get("d1"), plan.get("d2"), plan["lookups_seed"] % 64, adds)).encode()).hexdigest()[:16])
     else:
